@@ -200,6 +200,29 @@ Proof.
   - rewrite (fixed_executor_get _ _ _ _ Hin). reflexivity.
 Qed.
 
+Lemma env_get_none_if_no_key : forall k (l : env),
+  (forall k' v', In (k', v') l -> str_eqb k k' = false) -> env_get k l = None.
+Proof.
+  intros k l. induction l as [|[k0 v0] l IH]; intro H; [reflexivity|].
+  cbn [env_get]. rewrite IH by (intros k' v' Hin; apply (H k' v'); right; assumption).
+  rewrite (H k0 v0) by (left; reflexivity). reflexivity.
+Qed.
+
+(* Setup scripts cannot define variables whose name starts with NEXTEST (parse_env_file rejects
+   them), so for the NEXTEST-prefixed variables the side condition is discharged. *)
+Theorem env_fixed_nextest_keys : forall r s a inherited e k v,
+  test_assignments r s a inherited = Some e ->
+  (forall k' v', In (k', v') (ac_setup_env a) -> is_prefix K.NEXTEST k' = false) ->
+  In (k, v) (nextest_fixed r s a) ->
+  is_prefix K.NEXTEST k = true ->
+  child_env_get k e inherited = Some v.
+Proof.
+  intros r s a inh e k v He Hsetup Hin Hpre. apply (env_fixed r s a inh e k v He Hin).
+  apply env_get_none_if_no_key. intros k' v' Hk'.
+  destruct (str_eqb k k') eqn:E; [|reflexivity].
+  apply str_eqb_eq in E. subst k'. rewrite (Hsetup k v' Hk') in Hpre. discriminate.
+Qed.
+
 (* the same for what TestInstance::make_command alone assigns (what hook H5 observes) *)
 Theorem env_fixed_make_command : forall r s inherited e k v,
   make_command_assignments r s inherited = Some e ->
